@@ -31,10 +31,17 @@ def want(p):
 
 
 def script_of(tm, t0, pps):
-    """pps: list of (packet, plan); plan = {"lost": n, "noises": [(("ack", n) | ("foreign", addr, bytes), off)], "delta": d}"""
+    """pps: list of (packet, plan); plan = {"lost": n, "noises": [(("ack", n) | ("foreign", addr, bytes), off)], "delta": d}
+    with optional "rounds": one noise list per lost round (gscript_of / round_events of Delivery.v)"""
     ev = []
     t = t0
     for (p, pl) in pps:
+        for j, nzs in enumerate(pl.get("rounds", [])):
+            for (x, off) in nzs:
+                if x[0] == "ack":
+                    ev.append((t + j * tm + off, CLIENT, ack_bytes(x[1])))
+                else:
+                    ev.append((t + j * tm + off, x[1], x[2]))
         s = t + pl["lost"] * tm
         for (x, off) in pl["noises"]:
             if x[0] == "ack":
@@ -46,8 +53,14 @@ def script_of(tm, t0, pps):
     return ev
 
 
+def noise_ok(p, x, off, dl):
+    return 0 <= off <= dl and ((x[0] == "ack" and x[1] != want(p)) or (x[0] == "foreign" and x[1] != CLIENT))
+
+
 def plan_ok(tm, retries, p, pl):
     return (pl["lost"] <= retries and 0 <= pl["delta"] < tm and
+            len(pl.get("rounds", [[]] * pl["lost"])) == pl["lost"] and
+            all(noise_ok(p, x, off, tm - 1) for nzs in pl.get("rounds", []) for (x, off) in nzs) and
             all(0 <= off <= pl["delta"] and ((x[0] == "ack" and x[1] != want(p)) or (x[0] == "foreign" and x[1] != CLIENT))
                 for (x, off) in pl["noises"]))
 
@@ -104,7 +117,16 @@ def rand_plan(rng, tm, retries, p, prev_nums, faults):
             noises.append((("ack", rng.choice(cand)), off))
         else:
             noises.append((("foreign", rng.choice([1, 2]), rng.choice([ack_bytes(want(p)), b"", b"\x00\x05\x00\x00x\x00"])), off))
-    return {"lost": lost, "noises": noises, "delta": delta}
+    pl = {"lost": lost, "noises": noises, "delta": delta}
+    if rng.random() < faults:
+        def one(dl):
+            off = rng.choice([0, dl, rng.randrange(dl + 1)])
+            if rng.random() < 0.6:
+                cand = [n for n in (prev_nums[-2:] + [want(p) + 1, 0, 65535]) if n != want(p) and 0 <= n <= 65535]
+                return (("ack", rng.choice(cand)), off)
+            return (("foreign", rng.choice([1, 2]), rng.choice([ack_bytes(want(p)), b"zz"])), off)
+        pl["rounds"] = [[one(tm - 1) for _ in range(rng.randrange(0, 3))] for _ in range(lost)]
+    return pl
 
 
 def cases(tier, rng):
